@@ -13,6 +13,7 @@ import (
 	"strings"
 	"sync"
 	"time"
+	"unsafe"
 
 	"github.com/davecgh/go-spew/spew"
 	"github.com/gofrs/uuid"
@@ -171,6 +172,119 @@ func correspondence(c *lib.Ctx, r *lib.RNG) []lib.Mismatch {
 		c.Count(key)
 		if i < 2 {
 			c.Sample(map[string]any{"decoders": d, "types": t, "values": v, "table": strings.Join(tbl, " "), "trace": trace})
+		}
+	}
+	ms, err := c.RunModel("c17", sc)
+	if err != nil {
+		c.Violation("model driver failed: "+err.Error(), "", false)
+		return nil
+	}
+	return ms
+}
+
+// ------------------------------------------------------------------ assembler correspondence
+
+var asmTargets = []reflect.Type{reflect.TypeOf((*int64)(nil)), reflect.TypeOf((*uint64)(nil)), reflect.TypeOf((*float64)(nil))}
+
+func asmTarget(tt int) any {
+	switch tt {
+	case 0:
+		x := int64(-1)
+		return &x
+	case 1:
+		x := ^uint64(0)
+		return &x
+	default:
+		x := float64(-1)
+		return &x
+	}
+}
+
+func asmCorrespondence(c *lib.Ctx, r *lib.RNG) []lib.Mismatch {
+	sc := &lib.Script{}
+	n := c.Scale(300, 4000)
+	for i := 0; i < n; i++ {
+		sc.Begin()
+		C, TT, T, V := r.Range(0, 4), r.Range(1, 3), r.Range(1, 2), r.Range(1, 3)
+		bits := make([]string, C*TT)
+		tbl := make([]string, C*TT*T*V)
+		coherent := r.Chance(3, 4)
+		for j := 0; j < C; j++ {
+			for tt := 0; tt < TT; tt++ {
+				bits[j*TT+tt] = "0"
+				if r.Chance(3, 5) {
+					bits[j*TT+tt] = "1"
+				}
+				for t := 0; t < T; t++ {
+					takes := r.Chance(2, 3)
+					for v := 0; v < V; v++ {
+						cell := "u"
+						if takes || (!coherent && r.Bool()) {
+							if r.Chance(2, 3) {
+								cell = fmt.Sprintf("o%d", (j*10+tt)*100+t*10+v)
+							} else {
+								cell = fmt.Sprintf("e%d", j*100+tt*10+v)
+							}
+						}
+						tbl[((j*TT+tt)*T+t)*V+v] = cell
+					}
+				}
+			}
+		}
+		asm := encoding.NewDecodeAssembler[any, any]()
+		for j := 0; j < C; j++ {
+			j := j
+			asm.Add(encoding.DecodeCompilerFunc[any](func(typ reflect.Type) (encoding.Decoder[any, unsafe.Pointer], error) {
+				for tt := 0; tt < TT; tt++ {
+					if typ == asmTargets[tt] && bits[j*TT+tt] == "1" {
+						tt := tt
+						return encoding.DecodeFunc(func(src any, tgt unsafe.Pointer) error {
+							cell := tbl[((j*TT+tt)*T+srcTy(src))*V+srcVal(src)]
+							var k int
+							fmt.Sscanf(cell[1:], "%d", &k)
+							switch cell[0] {
+							case 'o':
+								*(*int64)(tgt) = int64(k) // all three targets are 8 bytes wide
+								return nil
+							case 'e':
+								return otherErr{k}
+							}
+							return fmt.Errorf("wrapped: %w", encoding.ErrUnsupportedType)
+						}), nil
+					}
+				}
+				return nil, fmt.Errorf("wrapped: %w", encoding.ErrUnsupportedType)
+			}))
+		}
+		sc.Op(strings.TrimSpace(fmt.Sprintf("asm %d %d %d %d %s %s", C, TT, T, V, strings.Join(bits, " "), strings.Join(tbl, " "))), "ok")
+		steps := r.Range(3, c.Scale(16, 30))
+		kinds := map[string]bool{}
+		var trace []string
+		for k := 0; k < steps; k++ {
+			tt, t, v := r.Intn(TT), r.Intn(T), r.Intn(V)
+			tgt := asmTarget(tt)
+			err := asm.Decode(mkSrc(t, v), tgt)
+			out := ""
+			switch {
+			case err == nil:
+				out = fmt.Sprintf("o%d", *(*int64)(reflect.ValueOf(tgt).UnsafePointer()))
+			case errors.Is(err, encoding.ErrUnsupportedType):
+				out = "u"
+			default:
+				out = err.Error()
+			}
+			kinds[out[:1]] = true
+			c.Hit("asm-result-" + out[:1])
+			sc.Op(fmt.Sprintf("adec %d %d %d", tt, t, v), out)
+			trace = append(trace, fmt.Sprintf("adec %d %d %d=>%s", tt, t, v, out))
+		}
+		key := ""
+		if len(kinds) >= 2 {
+			key = "asm/" + strings.Join(bits, "") + "/" + strings.Join(tbl, "") + "/" + strings.Join(trace, ";")
+		}
+		c.Count(key)
+		if i == 0 {
+			c.Sample(map[string]any{"assembler": fmt.Sprintf("%d compilers × %d targets", C, TT), "compiles": strings.Join(bits, ""), "table": strings.Join(tbl, " "), "trace": trace})
 		}
 	}
 	ms, err := c.RunModel("c17", sc)
@@ -372,6 +486,7 @@ func Run(c *lib.Ctx) {
 	var ms []lib.Mismatch
 	if c.Proof.DriverBuilt {
 		ms = correspondence(c, r.Fork())
+		ms = append(ms, asmCorrespondence(c, r.Fork())...)
 	}
 	fails := oracle(c, r.Fork())
 	c.Conclude("DecoderGroup.Decode ≈ Uniflow.Group.decode", ms, fails)
